@@ -9,7 +9,8 @@ Import ListNotations.
 (* ---------- templates ---------- *)
 (* a template body: literal text, {{ key }}, {% include 'n' %}, {% import 'n' as m %}{{ m.v }};
    [export] is the value the file binds to v at its top level ({% set v = '...' %}) *)
-Inductive item := Text (s : bytes) | Var (k : bytes) | Include (n : bytes) | Import (n : bytes).
+(* IncludeOpt = {% include 'n' ignore missing %}: a template that is not found renders nothing *)
+Inductive item := Text (s : bytes) | Var (k : bytes) | Include (n : bytes) | Import (n : bytes) | IncludeOpt (n : bytes).
 Record content := { items : list item; export : bytes }.
 
 (* ---------- file system: path -> content with its stat version ---------- *)
@@ -164,6 +165,14 @@ Section Items.
               | (c1, ETypeError) => (c1, ETypeError)
               | (c1, EFuel) => (c1, EFuel)
               end
+          | IncludeOpt n =>
+              let name := join_path cfg n parent in
+              match get_template cfg fs c name with
+              | (c1, Ok ct) => rec name ct c1
+              | (c1, ENotFound) => (c1, Ok [])            (* only the lookup of THIS name is forgiven *)
+              | (c1, ETypeError) => (c1, ETypeError)
+              | (c1, EFuel) => (c1, EFuel)
+              end
           end in
         match r1 with
         | Ok s1 => let '(c2, r2) := render_items parent r c1 in (c2, map_ok (app s1) r2)
@@ -253,6 +262,11 @@ Section SpecItems.
                          | ENotFound => ENotFound | ETypeError => ETypeError | EFuel => EFuel
                          end
           | Import n => map_ok export (spec_get cfg fs (join_path cfg n parent))
+          | IncludeOpt n => let name := join_path cfg n parent in
+                            match spec_get cfg fs name with
+                            | Ok ct => rec name ct
+                            | ENotFound => Ok [] | ETypeError => ETypeError | EFuel => EFuel
+                            end
           end in
         match r1 with
         | Ok s1 => map_ok (app s1) (spec_items parent r)
